@@ -661,6 +661,10 @@ func CheckC09(c *C09Case, st *Stats) error {
 		r, a = buildFromHistory(c.Recv), buildFromHistory(c.Arg)
 	}
 	parts = append(parts, &participant{"receiver", r}, &participant{"argument", a})
+	// lookups before anything is derived (whatever they build inside a list belongs to that list alone)
+	if err := lookupsConsistent(r, []any{"x", 1}); err != nil {
+		return err
+	}
 
 	spare := !c.ObjectMode && (c.Recv.Pops > 0 || len(c.Recv.Dels) > 0)
 	grown := !c.ObjectMode && len(c.Recv.Adds) > 0
@@ -759,6 +763,13 @@ func CheckC09(c *C09Case, st *Stats) error {
 		st.Count("mut." + m.Name)
 		if who != parts[1] {
 			mutatedRecvOrResult = true
+		}
+		for _, p := range parts {
+			if _, isList := p.val.(at.List); isList {
+				if err := lookupsConsistent(p.val, []any{specValue(m.V)}); err != nil {
+					return errf("after [%s] and a later %s on %s, %s: %v", derivNames, m.Name, who.name, p.name, err)
+				}
+			}
 		}
 		for i, p := range parts {
 			if p == who {
